@@ -16,6 +16,10 @@ def s_names(c):
     return [(n.name, ) for n in c.s_nodes]
 
 
+def s_keys(c):
+    return [(n.name, n.kind) for n in c.s_nodes]
+
+
 def capture_table(c, patterns):
     """2-valued LogicSim results at all s_node positions for the given stimulus patterns (list of bit lists over s_nodes)."""
     from kyupy import logic, logic_sim
@@ -36,14 +40,31 @@ def patterns_for(n, rng, limit=64):
     return [[rng.randint(0, 1) for _ in range(n)] for _ in range(limit)]
 
 
-def same_function(c1, c2, rng, what):
+def same_function(c1, c2, rng, what, reordered=None):
+    """None if c2 has the same interface names/order and truth table as c1.  If only the ORDER of the state elements
+    changed (same ports in the same order, same set of state elements) the function is still compared, position by
+    name, and the reordering is reported through reordered[0]."""
     n1, n2 = s_names(c1), s_names(c2)
+    k1, k2 = s_keys(c1), s_keys(c2)
+    perm = list(range(len(n1)))
     if n1 != n2:
-        return f'{what}: names/order of ports and state elements changed: {n1[:8]} -> {n2[:8]}'
+        nio = len(c1.io_nodes)
+        if reordered is not None and len(c2.io_nodes) == nio and k1[:nio] == k2[:nio] and sorted(k1) == sorted(k2) \
+                and len(set(k1)) == len(k1):
+            perm = [k2.index(k) for k in k1]        # position in c2 of the s_node at position p of c1
+            reordered.append(f'{what}: order of state elements changed: {[x[0] for x in n1[nio:]]} -> {[x[0] for x in n2[nio:]]}')
+        else:
+            return f'{what}: names/order of ports and state elements changed: {n1[:8]} -> {n2[:8]}'
     pats = patterns_for(len(n1), rng)
     if not pats or not n1:
         return None
-    t1, t2 = capture_table(c1, pats), capture_table(c2, pats)
+    pats2 = []
+    for pt in pats:
+        q = [0] * len(pt)
+        for p, v in enumerate(pt):
+            q[perm[p]] = v
+        pats2.append(q)
+    t1, t2 = capture_table(c1, pats), capture_table(c2, pats2)[perm, :]
     if not np.array_equal(t1, t2):
         p, k = np.argwhere(t1 != t2)[0]
         return f'{what}: position {p} ({n1[p][0]}) for stimulus {pats[k]} was {t1[p, k]}, now {t2[p, k]}'
@@ -52,9 +73,11 @@ def same_function(c1, c2, rng, what):
 
 def transform_sequence(rng):
     """random circuit of simulation primitives; copy / pickle / eliminate in random order"""
-    c, a = cg.gen_circuit(rng, allow_dangling=False)
+    # half of the circuits get arbitrary node / line creation orders (forks before cells, a state element last)
+    c, a = cg.gen_circuit(rng, allow_dangling=False, permute=rng.random() < 0.5)
     desc = {'kind': 'sequence', 'circuit': cg.describe(c), 'steps': []}
     cur = c
+    reordered = []
     for _ in range(rng.randint(1, 4)):
         step = rng.choice(['copy', 'pickle', 'eliminate'])
         desc['steps'].append(step)
@@ -65,12 +88,16 @@ def transform_sequence(rng):
         else:
             nxt = cur.copy()
             nxt.eliminate_1to1_forks()
-        msg = same_function(c, nxt, rng, ' -> '.join(desc['steps']))
+        # only fork elimination may be excused for reordering state elements (known finding D27); the function is still compared
+        msg = same_function(cur, nxt, rng, ' -> '.join(desc['steps']), reordered if step == 'eliminate' else None)
         if msg:
             return desc, msg
         if step != 'eliminate' and (nxt != cur or [n.index for n in nxt.nodes] != list(range(len(nxt.nodes)))):
             return desc, f'{step}: the copy is not structurally equal to the original'
         cur = nxt
+    if reordered:
+        desc['class'] = 'eliminate-state-order'
+        return desc, reordered[0]
     return desc, None
 
 
@@ -264,7 +291,7 @@ def run(ck):
         ck.count(1, 'copy/pickle/eliminate sequences')
         ck.nontrivial(('s', i))
         if what:
-            fails.append(('sequence', desc, what))
+            fails.append(('sequence:' + desc.get('class', 'function'), desc, what))
     for i in range(ck.scale(120, 3000)):
         try:
             desc, what = substitute_random(rng)
